@@ -200,9 +200,10 @@ func VerifH_C06_Connect() {
 	case 7: // reserved type 0
 		bad = []byte{0x00, 0}
 	}
-	conn.inject([]byte{0x20, 2, 0, 0})
-	conn.inject(refEncodePublish([]byte("t"), 0, 0, false, false, []byte{1}))
-	conn.inject(bad)
+	resp := []byte{0x20, 2, 0, 0}
+	resp = append(resp, refEncodePublish([]byte("t"), 0, 0, false, false, []byte{1})...)
+	resp = append(resp, bad...)
+	conn.answerConnect(resp)
 	done := false
 	verifOnQuiescence(func() {
 		verifAssert(done, "C06.done_closed_after_malformed")
